@@ -59,7 +59,7 @@ res.append(case('interface-call', lambda s: s.replace(base_ret,'var e error = Er
 res.append(case('generic', lambda s: s.replace(base_ret,base_ret.replace('0.6 * impact','0.6 * idT(impact)'))+'\nfunc idT[T any](x T) T { return x }\n'))
 res.append(case('blank-assign-call', lambda s: s.replace(base_ret,'_ = sideEffect()\n\t'+base_ret)+'\nvar counter int\n\nfunc sideEffect() int { counter++; return counter }\n'))
 res.append(case('dec', sub(base_ret,'n := 3\n\tn--\n\t_ = n\n\t'+base_ret)))
-res.append(case('neg-float-to-int', sub(base_ret,'n := int(impact - 20)\n\t_ = n\n\t'+base_ret), expect='translate'))
+res.append(case('neg-float-to-int', sub(base_ret,'n := int(impact - 20)\n\t_ = n\n\t'+base_ret)))
 # found by the machinery audit of round 4 (docs/AUDIT-round4.md)
 res.append(case('shadowing', sub(base_ret,'if impact > 100 {\n\t\timpact := 0.0\n\t\t_ = impact\n\t}\n\t'+base_ret)))
 res.append(case('local-pointer-alias', sub(base_ret,'p := &impact\n\t*p = 0\n\t'+base_ret)))
@@ -79,6 +79,13 @@ res.append(case('signed-shift-count', sub(base_ret,'sh := uint8(1) << int(cvss20
 res.append(case('runtime-capacity-elsewhere', lambda s: s.replace(base_ret,'tmp := make([]byte, 0, int(cvss20.u0))\n\timpact = impact + float64(len(tmp))\n\t'+base_ret), expect='translate', must='"CVSS20.BaseScore", "CVSS20.Vector"'))
 res.append(case('return-in-range-in-if', sub(base_ret,'bonus := 0.0\n\tif impact == 3 {\n\t\tfor _, t := range []float64{3} {\n\t\t\tif impact == t {\n\t\t\t\treturn 9.9\n\t\t\t}\n\t\t\tbonus = 1\n\t\t}\n\t}\n\timpact = impact + bonus\n\t'+base_ret), expect='translate', must='4023cccccccccccd'))
 res.append(case('wide-overflow', sub(base_ret,'h := uint64(cvss20.u0) * 0x9E3779B97F4A7C15\n\tif h == 5 {\n\t\timpact = 0\n\t}\n\t'+base_ret)))
+# found by the false-pass audit of round 6 (docs/AUDIT-round5.md, second part)
+res.append(case('float-to-int-outside-idiom', sub(base_ret,'if int(impact*1000-20000)+20000 == 7217 {\n\t\timpact = 0\n\t}\n\t'+base_ret)))
+res.append(case('wide-shift', sub(base_ret,'h := uint64(cvss20.u0) + 1\n\th = h << 31\n\tif h == 0 {\n\t\timpact = 0\n\t}\n\t'+base_ret)))
+res.append(case('wide-add-assign-big-constant', sub(base_ret,'h := uint64(cvss20.u0)\n\th += 18446744073709551615\n\tif h == 7 {\n\t\timpact = 0\n\t}\n\t'+base_ret)))
+res.append(case('wide-doubling', sub(base_ret,'h := uint64(cvss20.u0)\n\th = h + h\n\tif h == 7 {\n\t\timpact = 0\n\t}\n\t'+base_ret)))
+res.append(case('table-alias-write', sub(base_ret,'g := order[1]\n\tg[0] = "X"\n\t'+base_ret)))
+res.append(case('parser-struct-alias', lambda s: s.replace('\tpts := partsPtr.([]string)\n','\tpts := partsPtr.([]string)\n\tobj := CVSS20{}\n\tpo := &obj\n\t_ = po\n',1), mode='P'))
 shutil.rmtree(SCRATCH, ignore_errors=True)
 allok = all(r for r in res) and None not in res
 print('translator self-test:', 'ALL OK' if allok else 'FAILURES')
